@@ -41,6 +41,10 @@
 #include <bxdecay0/tgold.h>
 #include <bxdecay0/utils.h>
 
+#if defined(BXDECAY0_VERIF) && defined(__SANITIZE_ADDRESS__)
+#include <sanitizer/asan_interface.h>
+#endif
+
 namespace bxdecay0 {
 
   void enrange::_set_defaults()
@@ -236,8 +240,69 @@ namespace bxdecay0 {
   bbpars::bbpars()
   {
     this->bbpars::_set_defaults();
+#ifdef BXDECAY0_VERIF
+    verif_guard(true);
+#endif
     return;
   }
+
+#ifdef BXDECAY0_VERIF
+  // Verification hook (off by default): guard cells around spthe1/spthe2, poisoned under AddressSanitizer
+  void bbpars::verif_guard(bool on_)
+  {
+#if defined(__SANITIZE_ADDRESS__)
+    if (on_) {
+      __asan_poison_memory_region(verif_redzone0, sizeof(verif_redzone0));
+      __asan_poison_memory_region(verif_redzone1, sizeof(verif_redzone1));
+      __asan_poison_memory_region(verif_redzone2, sizeof(verif_redzone2));
+    } else {
+      __asan_unpoison_memory_region(verif_redzone0, sizeof(verif_redzone0));
+      __asan_unpoison_memory_region(verif_redzone1, sizeof(verif_redzone1));
+      __asan_unpoison_memory_region(verif_redzone2, sizeof(verif_redzone2));
+    }
+#else
+    (void)on_;
+#endif
+    return;
+  }
+
+  bbpars & bbpars::operator=(const bbpars & other_)
+  {
+    if (this == &other_) {
+      return *this;
+    }
+    this->enrange::operator=(other_);
+    this->denrange::operator=(other_);
+    this->helpbb::operator=(other_);
+    this->eta_nme::operator=(other_);
+    modebb   = other_.modebb;
+    Qbb      = other_.Qbb;
+    Edlevel  = other_.Edlevel;
+    EK       = other_.EK;
+    Zdbb     = other_.Zdbb;
+    Adbb     = other_.Adbb;
+    istartbb = other_.istartbb;
+    for (unsigned int i = 0; i < SPSIZE; i++) {
+      spthe1[i] = other_.spthe1[i];
+      spthe2[i] = other_.spthe2[i];
+    }
+    spmax = other_.spmax;
+    return *this;
+  }
+
+  bbpars::bbpars(const bbpars & other_) : enrange(other_), denrange(other_), helpbb(other_), eta_nme(other_)
+  {
+    verif_guard(true);
+    *this = other_;
+    return;
+  }
+
+  bbpars::~bbpars()
+  {
+    verif_guard(false);
+    return;
+  }
+#endif
 
   /*********************************************************************/
   void decay0_bb(i_random & prng_, event & event_, void * params_)
